@@ -496,7 +496,8 @@ def checkU16 (f : Fields) (ans : Fields) (panicked : Bool) : Verdict :=
           let cs := ((starts.zip lo).filter (fun (st, _) => a ≤ st && st < b)).map (fun (_, x) => hexStr x.1)
           s!"{a}-{b}:{b - a}:{String.intercalate "." cs}"))
       else ""
-    v.add (getF ans "SUB" == ssub) "S:C18"
+    let v := v.add (getF ans "SUB" == ssub) "S:C18"
+    v.add (getF ans "FAR" == "1") "S:C18"
 
 /-- `<str as TextSource>`: char_at at every offset, the three iterators, char_len, len, subrange -/
 def checkS8 (f : Fields) (ans : Fields) (panicked : Bool) : Verdict :=
@@ -534,7 +535,8 @@ def checkS8 (f : Fields) (ans : Fields) (panicked : Bool) : Verdict :=
           let xs := ((starts.zip cs).filter (fun (st, _) => a ≤ st && st < b)).map (fun (_, c) => hexStr c)
           s!"{a}-{b}:{b - a}:{String.intercalate "." xs}"))
       else ""
-    v.add (getF ans "SUB" == ssub) "S:C18"
+    let v := v.add (getF ans "SUB" == ssub) "S:C18"
+    v.add (getF ans "FAR" == "1") "S:C18"
 
 def resStr (o : Option Nat) (orig : Nat) : String :=
   match o with
@@ -778,7 +780,17 @@ def processLine (line : String) : Option String :=
         | "ver" => checkVer ans
         | "meta9" => checkEq "C09" ans
         | "meta10" => checkEq "C10" ans
-        | "metalong" => checkEq "C01" ans
+        | "metalong" =>
+          -- levels, line levels and reordered line of the tail after a prefix of 65,5xx letters = after one letter:
+          -- a difference counts against the level property and the three line properties
+          let v := checkEq "C01" ans
+          if v.toks.contains "S:C01" then ((v.add false "S:C03").add false "S:C05").add false "S:C06" else v
+        | "stress" =>
+          -- `(a א)×n`: one paragraph, 2n runs in every API, level sum n, reordered line = the text
+          let n := (getF f "n").toNat?.getD 0
+          let ok := getF ans "PARAS" == "1" && getF ans "RUNS" == toString (2 * n) && getF ans "RUNSP" == toString (2 * n)
+                    && getF ans "RUNS8" == toString (2 * n) && getF ans "LSUM" == toString n && getF ans "SAME" == "1"
+          ((({} : Verdict).add ok "S:C07").add ok "S:C05").add ok "S:C06"
         | "meta12" => checkEq "C12" ans
         | "meta13" => checkEq "C13" ans
         | "digest" => {}
@@ -786,6 +798,8 @@ def processLine (line : String) : Option String :=
         | _ => ({} : Verdict).add false "M:unknown-op"
       -- a call that panics outright gives no answer at all: every property about its result is violated
       let v := if panicked then v.add false "S:PANIC" else v
+      -- a panic raised during the operation that never reached the harness (caught inside the crate) is still a panic
+      let v := if hasF ans "HIDDENPANIC" then (v.add false "S:C07").add false "S:PANIC" else v
       let verdict := if v.toks.isEmpty then "ok" else "FAIL " ++ String.intercalate " " v.toks.eraseDups
       some s!"{id} {mode} {op} {verdict} | {v.stats}"
     | _ => none
